@@ -48,8 +48,18 @@ usz nondet_usz(void);
 #define SEQ_DECL(type, name)         static type seq_##name
 #define SEQ_NEXT(type, name)         (seq_##name = nondet_##type())
 #define ASSUME(c)        __CPROVER_assume(c)
+/* The driver encodes every harness twice: the property run (witnesses compiled out: one UNSAT query decides all
+ * assertions) and the witness run (property assertions compiled out: each WITNESS must come back reachable). */
+#ifdef VERIF_WITNESS_ONLY
+#define CHECK(c, msg)    ((void) (c))
+#else
 #define CHECK(c, msg)    __CPROVER_assert((c), "PROP " msg)
+#endif
+#ifdef VERIF_NO_WITNESS
+#define WITNESS(msg)     ((void) 0)
+#else
 #define WITNESS(msg)     __CPROVER_assert(0, "WITNESS " msg)
+#endif
 #endif
 
 #endif
